@@ -4,8 +4,10 @@
 use std::cmp::Ordering;
 
 use hvcommon::{Value, guarded, json};
+use lattices::ght::lattice::{DeepJoinLatticeBimorphism, GhtCartesianProductBimorphism};
 use lattices::ght::{GeneralizedHashTrieNode, GhtPrefixIter};
-use lattices::{GhtType, IsBot, Merge};
+use lattices::{GhtType, IsBot, LatticeBimorphism, Merge};
+use variadics::variadic_collections::VariadicHashSetStd;
 use variadics::{var_args, var_expr, var_type};
 
 pub type Row = Vec<u32>;
@@ -22,6 +24,11 @@ trait Trie: Clone + Default {
     fn eq(&self, o: &Self) -> bool;
     fn height(&self) -> usize;
     fn is_bot(&self) -> bool;
+    /// DeepJoinLatticeBimorphism of self with o (same schema): rows of the output trie
+    fn join(&self, o: &Self) -> Vec<Row>;
+    /// GhtCartesianProductBimorphism at the roots, collected into a trie with NKO key columns
+    fn cart(&self, o: &Self) -> Vec<Row>;
+    const NKO: usize;
 }
 
 fn sorted(mut rows: Vec<Row>) -> Vec<Row> {
@@ -34,7 +41,8 @@ macro_rules! u32ref {
 }
 
 macro_rules! impl_trie {
-    ($ty:ty; $($i:tt $v:ident),+; $( $plen:literal => ($($pi:tt),*) ),* ) => {
+    ($ty:ty; $($i:tt $v:ident),+; $( $plen:literal => ($($pi:tt),*) ),* ;
+     join $jty:ty, ($($jv:ident),+); cart $cty:ty, $nko:literal, ($($cv:ident),+) ) => {
         impl Trie for $ty {
             fn insert(&mut self, r: &[u32]) -> bool {
                 GeneralizedHashTrieNode::insert(self, var_expr!($(r[$i]),+))
@@ -68,6 +76,18 @@ macro_rules! impl_trie {
             fn eq(&self, o: &Self) -> bool { self == o }
             fn height(&self) -> usize { GeneralizedHashTrieNode::height(self) }
             fn is_bot(&self) -> bool { IsBot::is_bot(self) }
+            fn join(&self, o: &Self) -> Vec<Row> {
+                type Bim = <($ty, $ty) as DeepJoinLatticeBimorphism<VariadicHashSetStd<$jty>>>::DeepJoinLatticeBimorphism;
+                let mut bim = <Bim as Default>::default();
+                let out = bim.call(self, o);
+                out.recursive_iter().map(|var_args!($($jv),+)| vec![$(*$jv),+]).collect()
+            }
+            fn cart(&self, o: &Self) -> Vec<Row> {
+                let mut bim = GhtCartesianProductBimorphism::<$cty>::default();
+                let out: $cty = bim.call(self, o);
+                out.recursive_iter().map(|var_args!($($cv),+)| vec![$(*$cv),+]).collect()
+            }
+            const NKO: usize = $nko;
         }
     };
 }
@@ -79,21 +99,31 @@ type K1V2 = GhtType!(u32 => u32, u32: VariadicHashSetStd);
 type K3V1 = GhtType!(u32, u32, u32 => u32: VariadicHashSetStd);
 type K0V2 = GhtType!(() => u32, u32: VariadicHashSetStd);
 
-impl_trie!(K1V1; 0 a, 1 b; 0 => (), 1 => (0), 2 => (0, 1));
-impl_trie!(K2V1; 0 a, 1 b, 2 c; 0 => (), 1 => (0), 2 => (0, 1), 3 => (0, 1, 2));
-impl_trie!(K2V0; 0 a, 1 b; 0 => (), 1 => (0), 2 => (0, 1));
-impl_trie!(K1V2; 0 a, 1 b, 2 c; 0 => (), 1 => (0), 2 => (0, 1), 3 => (0, 1, 2));
-impl_trie!(K3V1; 0 a, 1 b, 2 c, 3 d; 0 => (), 1 => (0), 2 => (0, 1), 3 => (0, 1, 2), 4 => (0, 1, 2, 3));
-impl_trie!(K0V2; 0 a, 1 b; 0 => (), 1 => (0), 2 => (0, 1));
+type C4 = GhtType!(u32, u32 => u32, u32: VariadicHashSetStd);
+type C6 = GhtType!(u32, u32, u32 => u32, u32, u32: VariadicHashSetStd);
+type C8 = GhtType!(u32, u32, u32, u32 => u32, u32, u32, u32: VariadicHashSetStd);
+
+impl_trie!(K1V1; 0 a, 1 b; 0 => (), 1 => (0), 2 => (0, 1);
+           join var_type!(u32, u32, u32), (a, b, c); cart C4, 2, (a, b, c, d));
+impl_trie!(K2V1; 0 a, 1 b, 2 c; 0 => (), 1 => (0), 2 => (0, 1), 3 => (0, 1, 2);
+           join var_type!(u32, u32, u32, u32), (a, b, c, d); cart C6, 3, (a, b, c, d, e, f));
+impl_trie!(K2V0; 0 a, 1 b; 0 => (), 1 => (0), 2 => (0, 1);
+           join var_type!(u32, u32), (a, b); cart C4, 2, (a, b, c, d));
+impl_trie!(K1V2; 0 a, 1 b, 2 c; 0 => (), 1 => (0), 2 => (0, 1), 3 => (0, 1, 2);
+           join var_type!(u32, u32, u32, u32, u32), (a, b, c, d, e); cart C6, 3, (a, b, c, d, e, f));
+impl_trie!(K3V1; 0 a, 1 b, 2 c, 3 d; 0 => (), 1 => (0), 2 => (0, 1), 3 => (0, 1, 2), 4 => (0, 1, 2, 3);
+           join var_type!(u32, u32, u32, u32, u32), (a, b, c, d, e); cart C8, 4, (a, b, c, d, e, f, g, h));
+impl_trie!(K0V2; 0 a, 1 b; 0 => (), 1 => (0), 2 => (0, 1);
+           join var_type!(u32, u32, u32, u32), (a, b, c, d); cart C4, 2, (a, b, c, d));
 
 pub fn shapes() -> Value {
     json!([
-        {"shape": "k1v1", "nk": 1, "arity": 2},
-        {"shape": "k2v1", "nk": 2, "arity": 3},
-        {"shape": "k2v0", "nk": 2, "arity": 2},
-        {"shape": "k1v2", "nk": 1, "arity": 3},
-        {"shape": "k3v1", "nk": 3, "arity": 4},
-        {"shape": "k0v2", "nk": 0, "arity": 2},
+        {"shape": "k1v1", "nk": 1, "arity": 2, "nko": K1V1::NKO},
+        {"shape": "k2v1", "nk": 2, "arity": 3, "nko": K2V1::NKO},
+        {"shape": "k2v0", "nk": 2, "arity": 2, "nko": K2V0::NKO},
+        {"shape": "k1v2", "nk": 1, "arity": 3, "nko": K1V2::NKO},
+        {"shape": "k3v1", "nk": 3, "arity": 4, "nko": K3V1::NKO},
+        {"shape": "k0v2", "nk": 0, "arity": 2, "nko": K0V2::NKO},
     ])
 }
 
@@ -133,6 +163,8 @@ fn history<T: Trie>(ops: &[Value]) -> Value {
             // partial_cmp takes shared references: a panic leaves both tries intact
             "cmp" => guarded(|| cmp_json(regs[w].cmp(&regs[1 - w]))),
             "eq" => guarded(|| json!({"b": regs[w].eq(&regs[1 - w])})),
+            "join" => json!({"rows": sorted(regs[w].join(&regs[1 - w]))}),
+            "cart" => json!({"rows": sorted(regs[w].cart(&regs[1 - w]))}),
             "height" => json!({"n": regs[w].height()}),
             "is_bot" => json!({"b": regs[w].is_bot()}),
             _ => json!({"bad_op": name}),
